@@ -120,6 +120,28 @@ MGenNext == LET c1 == IF VersionedCur(S) # {} /\ R(1..6) = 1 THEN MarkerCall(S) 
                 c3 == RandCall(RW(MOpWSel), S)
             IN Step(IF Succeeds(c1) THEN c1 ELSE IF Succeeds(c2) THEN c2 ELSE c3)
 
+\* PAIR programs (PairMode): order-dependent leaks between consecutively migrated objects.  Both
+\* buckets get both keys; one key of each bucket is RICH (content type, system + user metadata,
+\* redirect (set "1"), tags and a non-default storage class all set), the other PLAIN (everything at
+\* its default).  Pattern A (k1 rich, k2 plain): every attribute is set on an object and default on
+\* the one migrated right after it inside the bucket.  Pattern B (k1 plain, k2 rich): the same across
+\* the bucket boundary, whatever the bucket order.  The pattern is drawn at call 3 and read back.
+CONSTANT PairMode
+RichPut(b, k) == [TPutObject EXCEPT !.b = b, !.k = k, !.blob = R(Blobs), !.ctype = R(CTypes \ {None}),
+                                    !.meta = IF b = "b1" THEN "1" ELSE R(MetaSets \ {None, "1"}),
+                                    !.tags = R(TagSets \ {None}), !.class = R(Classes \ {None, "STANDARD"}), !.cond = "none"]
+PlainPut(b, k) == [TPutObject EXCEPT !.b = b, !.k = k, !.blob = R(Blobs), !.ctype = None, !.meta = None, !.tags = None,
+                                     !.class = R(Classes \cap {None, "STANDARD"}), !.cond = "none"]
+PairLen == 6
+PairCall(i) ==
+  LET A == IF i = 3 THEN R(BOOLEAN) ELSE hist[3].meta # None IN
+  CASE i = 2 -> Create("b2")
+    [] i = 3 -> IF A THEN RichPut("b1", "k1") ELSE PlainPut("b1", "k1")
+    [] i = 4 -> IF A THEN PlainPut("b1", "k2") ELSE RichPut("b1", "k2")
+    [] i = 5 -> IF A THEN RichPut("b2", "k1") ELSE PlainPut("b2", "k1")
+    [] i = 6 -> IF A THEN PlainPut("b2", "k2") ELSE RichPut("b2", "k2")
+MPairNext == IF PairMode /\ Len(hist) < PairLen THEN Step(PairCall(Len(hist) + 1)) ELSE MGenNext
+
 MEmit == IF Len(hist) = GenDepth
          THEN PrintT(ToJson([calls |-> hist, kinds |-> DstKinds,
                              dsts |-> [i \in 1..Len(DstKinds) |-> DstProg(DstKinds[i], S)]]))
